@@ -235,7 +235,7 @@ func init() {
 	properties["C01"] = &Property{
 		Level:     "other",
 		LevelText: "Structural necessary conditions, each decided for all code it applies to: (buf-readonly) no instruction of the parsing packages writes an element of a byte slice that is not local storage, nor hands one to a callee outside the reviewed read-only set - this clause ('the caller's buffer is left unchanged') is decided completely; (cb-guard) every call of the optional error callback is dominated by a nil test; (idx-guard) every index or slice expression on the input buffer, the scanner's call stack and the line table in internal/scanner is implied in range by its dominating conditions plus the scanner invariants (0 <= ts <= te <= len, p < len inside Lex, the dataflow bounds on p-ts and te-ts), by a small linear prover; the call-stack invariant 0 <= top <= len(stack) is shown inductive over every write of the two fields and the post-condition of growCallStack (top < len(stack)) is proved from its body, not assumed; (progress) the graph of token steps that may consume nothing is acyclic, so the scanner advances by at least one byte per bounded number of steps and Lex returns at most len+1 tokens; (pred-pure) transition conditions do not move the cursor; (nil-in-list, linear) grammar actions cannot put nil into a list or index a possibly-empty list; (assert-safe) every single-value type assertion an action applies to a right-hand-side value is reached only on paths that have established that the value is non-nil and of the asserted type whenever the productions of that symbol can yield nil or another type; the parser driver is the stock goyacc driver, whose error recovery shifts `error`, discards a token or aborts (tables-sync/skeleton-sync). (no-rescan) a structural necessary condition of linear time: the code reached from Lex never takes the input or the line table as a whole, a prefix or a suffix of them, and a loop that moves an index over one of them starts at the cursor and has an exit that depends on the element. Not decided: the amortised time bound itself, Go stack depth on deeply nested input, memory.",
-		LevelNote: "Known findings: the new_line action's look-ahead after a CR at end of input (81 generated copies), two scanner stalls (html '<', heredoc '$$'), and the cursor-moving heredoc predicate. Three further index panics found by idx-guard were repaired in /repo.",
+		LevelNote: "Known findings: two scanner stalls (html '<', heredoc '$$') and the cursor-moving heredoc predicate. Four index panics found by idx-guard were repaired in /repo (the last one: the new_line action's look-ahead after a CR at the end of the input, 81 generated copies).",
 		Technique: "static analysis: SSA effect analysis (buffer writes, guard dominance), linear bound proving over dominating conditions, transition-system reconstruction of the scanner with interval dataflow and replay refinement for progress",
 		Engine:    "scandfa",
 		Explanation: "buf-readonly, cb-guard (SSA); idx-guard (with the call-stack invariant), progress on the reconstructed scanner; pred-pure; no-rescan; nil-in-list, assert-safe (grammar actions); tables-sync / skeleton-sync.",
